@@ -43,6 +43,12 @@ func (self ValueAnyObject) IsEqual(other Value) (bool, *Interrupt) {
 		if !found {
 			return false, nil
 		}
+		// The fields of an any-object are dynamically typed: values of different kinds are not equal.
+		// (`IsEqual` of the scalar kinds asserts the kind of its operand, so without this check the
+		// comparison crashed or returned `false` depending on which field the map yielded first.)
+		if (*value).Kind() != (*otherValue).Kind() {
+			return false, nil
+		}
 		isEqual, i := (*value).IsEqual(*otherValue)
 		if i != nil {
 			return false, i
